@@ -17,7 +17,8 @@ MANIFEST = {
                  "tolerance arithmetic is regenerated from the source text on every run) + vm_compute correspondence of "
                  "the parsed printed text against the model run with round-half-even (set of admissible outputs at float "
                  "near-ties) + independent exact-decimal oracle search",
-    "level_text": "Machine-checked theorems (C09_auto_error, C09_value_mode, C09_zero_error, C09_zero_value, closed under the "
+    "level_text": "Machine-checked theorems (C09_auto_error, C09_value_mode, C09_zero_error, C09_zero_value; C09_history: along every history of "
+                  "printing and changing one object the printed text is the printer's text for the pair held at that moment; closed under the "
                   "global context) about a Gallina model of get_printer/__default_printer/__scientific_printer/"
                   "__round_values_to_sig_figs/__find_number_of_decimals over exact rationals, for all rational inputs, all three "
                   "styles, all three modes and n in 1..13: formatting succeeds, value and uncertainty carry one number of "
